@@ -244,6 +244,13 @@ async fn run(mut s: Sim, mut rng: Rng, len: usize) -> Sim {
                                       1 => { let ix = s.rd_configure(&g.admin, RdSetting::RewardsAccountant(nk.clone())); if s.op(tx(vec![ix])).await { g.rew_acc = nk; } }
                                       _ => { let ix = s.rd_set_admin(&g.up, &nk); if s.op(tx(vec![ix])).await { g.admin = nk; } } }
                 continue; }
+            98 => { // program-data look-alikes: loader-owned at a foreign address, or canonical bytes under another owner
+                let attacker = g.users[11].clone(); let fake = K::User(710 + rng.below(2));
+                let owner = if rng.chance(2, 3) { K::Loader } else { rng.pick(&[K::System, K::Rogue(1)]).clone() };
+                s.forge_progdata(&attacker, &fake, &owner).await;
+                let ix = if rng.chance(1, 2) { s.rd_set_admin(&attacker, &attacker) } else { s.rd_migrate(&attacker) };
+                let ix = ix.with_key(0, &if rng.chance(3, 4) { fake } else { K::ProgData(b(&K::Passport)) });
+                s.op(tx(vec![ix])).await; continue; }
             93 => { let ci = rng.below(g.svcs.len() as u64) as usize; let v = g.svcs[ci].clone();
                     match rng.below(4) {
                         0 => { let m = rng.pick(&g.users).clone(); let ix = s.rd_set_rewards_manager(&g.cmgr, &v, &m); if s.op(tx(vec![ix])).await { g.mgrs[ci] = m; } continue; }
@@ -281,6 +288,17 @@ async fn go(s: &mut Sim, rng: &mut Rng, g: &mut G, ix: crate::sim::Ix) -> bool {
         if s.op(tx(vec![p])).await {
             s.op(tx(vec![ix.clone()])).await;
             let u = s.rd_configure(&g.admin, RdSetting::Paused(false)); s.op(tx(vec![u])).await;
+        }
+    }
+    if rng.chance(1, 10) { // look-alike attack: a forged config (right tag, wrong owner or wrong address) naming the attacker in every role
+        let attacker = g.users[11].clone();
+        if let Some(cp) = ix.metas.iter().position(|m| m.0 == K::RdConfig) {
+            let fake = K::User(700 + rng.below(3));
+            let owner = rng.pick(&[K::Rogue(2), K::System, K::Passport, K::Token]).clone();
+            s.forge_rd_config(&attacker, &fake, &owner).await;
+            let mut f = ix.clone().with_key(cp, &fake);
+            if let Some(pos) = f.metas.iter().position(|m| m.1) { f = f.with_key(pos, &attacker); }
+            s.op(tx(vec![f])).await;
         }
     }
     if rng.chance(1, 15) { // a signer of the honest instruction replaced by another wallet that does sign
